@@ -208,6 +208,8 @@ type drv struct {
 	openI   int
 	openPos int
 	plan    [][]int
+	ttRef   []int // reference captured when the time-travel view was built (later retention may make that restore impossible)
+	ttRefOK bool
 }
 
 func (d *drv) payload(n int) []byte {
@@ -519,6 +521,18 @@ func mask(pgno int, b []byte) {
 }
 
 func (d *drv) reference(ev *Ev) {
+	if d.tt != 0 && ev.Op != "TT" {
+		ev.Ref, ev.RefN, ev.RefOK = append([]int{}, d.ttRef...), len(d.ttRef), d.ttRefOK
+		if !d.ttRefOK {
+			ev.RefErr = "err:no reference for the time-travel view"
+		}
+		return
+	}
+	defer func() {
+		if d.tt != 0 {
+			d.ttRef, d.ttRefOK = append([]int{}, ev.Ref...), ev.RefOK
+		}
+	}()
 	client := file.NewReplicaClient(d.repDir)
 	client.SetLogger(discard)
 	rep := litestream.NewReplicaWithClient(nil, client)
